@@ -101,10 +101,11 @@ class Nodes(Query[Node]):
 		def factory() -> Node:
 			base = EntryPath(via)
 			elems = list(reversed(base.de_identify().elements))
-			index = elems.index(tag)
-			if index == -1:
+			# 自身は対象外(直近の親から検索)
+			if tag not in elems[1:]:
 				raise Errors.NodeNotFound(via, tag)
 
+			index = elems.index(tag, 1)
 			slices = len(elems) - index
 			found_path = EntryPath.join(*base.elements[:slices])
 			return self.by(found_path.origin)
